@@ -307,13 +307,50 @@ def r4(cx):
         keys_ok = False
         if src is not None and src[0] == "call" and src[1].endswith("Vars::new") and not src[3]:
             fresh = True
-            sets = [c for c in f.calls() if c.q.endswith("Vars::set") and pa.root(f, c.args[0]) == src]
+            sets = [c for c in f.calls() if (c.q.endswith("Vars::set") or re.search(r"Vars::set::<", c.q)) and pa.root(f, c.args[0]) == src]
             keys_ok = bool(sets)
+            own_sets = []
             for c in sets:
                 key = pa.root(f, c.args[1])
                 it = pa.iter_source(f, ("call", key[1], key[2], ())) if key[0] == "call" else None
-                if it is None or not _is_node_outputs(f, pa, it[0]):
+                if it is not None and _is_node_outputs(f, pa, it[0]):
+                    continue
+                if it is not None and it[0][0] == "local":
+                    own_sets.append((c, it[0]))
+                    continue
+                keys_ok = False
+            # keys that are not declared outputs: only what the action itself needs, per event (C15: the error return keeps its code)
+            from rules.common import keys_read_by_update
+            read, required = keys_read_by_update(m)
+            kept = {}
+            for c, loc in own_sets:
+                table = _own_keys_table(m, f, loc[1])
+                if table is None:
                     keys_ok = False
+                    continue
+                for e, ks in table.items():
+                    kept.setdefault(e, set()).update(ks)
+                bad = {e: sorted(ks - read.get(e, set())) for e, ks in table.items() if ks - read.get(e, set())}
+                # the value stored under the key is the client's value of that same key
+                v = pa.root(f, c.args[2])
+                same = False
+                n = 0
+                while v[0] == "call" and n < 4:
+                    cc = Call(f, v[2])
+                    if v[1].endswith("Vars::get_value"):
+                        same = pa.root(f, cc.args[1])[:3] == pa.root(f, c.args[1])[:3]
+                        break
+                    v = pa.root(f, cc.args[0]) if cc.args else ("x",)
+                    n += 1
+                cx.ob("C05.R4", "rebuild:own-keys", not bad and same,
+                      "besides the declared outputs the rebuilt options keep, per action, only keys that this action's arm of Task::update reads (%s)%s" % (
+                          ", ".join("%s: %s" % (e, sorted(ks)) for e, ks in sorted(table.items()) if ks) or "none",
+                          "" if (not bad and same) else " - but %s" % (("keeps %s which that arm never reads" % bad) if bad else "the value does not come from the same key of the client's options")), c.loc)
+            lost = {e: sorted(ks - kept.get(e, set())) for e, ks in required.items() if ks - kept.get(e, set())}
+            cx.ob("C05.R4", "rebuild:required-keys-survive", not lost,
+                  "every key an arm of Task::update insists on (ok_or on the lookup: %s) survives the cut-down for that action%s" % (
+                      ", ".join("%s: %s" % (e, sorted(ks)) for e, ks in sorted(required.items())),
+                      "" if not lost else " - lost: %s: that action is always refused on an act with declared outputs, and the error return of a sub-process to such an act loses its code" % lost), sa[0].loc)
             others = [c for c in f.calls() if re.search(r"Vars::(insert|extend|append|with)$|Map::<.*>::(insert|extend|append)$", c.q)
                       and c.args and pa.root(f, c.args[0]) == src]
             keys_ok = keys_ok and not others
@@ -328,7 +365,7 @@ def r4(cx):
                     starts.append(bool_target(f, g.b, False))
         ok = bool(starts) and any(f.can_reach(a, sa[0].b) for a in ab) and all(sa[0].b not in f.reach_from([st], avoid=ab) for st in starts)
         cx.ob("C05.R4", "rebuild:before-bind", ok, "when outputs are declared every path to `ctx.set_action` passes the assignment of the rebuilt options", sa[0].loc)
-    cx.floor("C05.R4", 4)
+    cx.floor("C05.R4", 6)
 
 
 LOCKS = re.compile(r"^std::sync::Mutex::<T>::lock$|^std::sync::RwLock::<T>::write$|^tokio::sync::Mutex::<T>::(lock|blocking_lock)$|parking_lot::.*::lock$")
@@ -376,3 +413,55 @@ def _dropped_between(f, local, b_from, b_to):
         if t[0] == "drop" and t[1][0] == local and not t[1][1] and f.can_reach(b, b_to) and b != b_to:
             return True
     return False
+
+
+
+def _own_keys_table(m, f, loc):
+    """local `loc` is assigned, per arm of a match on `<action>.event`, a promoted array of string constants:
+    {event: set(keys)} or None"""
+    from rules.common import event_arm_of, EVENTS
+    table = {}
+    covered = set()
+    for bi, si, kind, payload in f.defs().get(loc, []):
+        if kind != "assign":
+            return None
+        # follow `_229 = move _243 as &[&str]` <- `&(*_293)` <- uneval promoted
+        keys = _promoted_strs(f, payload)
+        if keys is None:
+            return None
+        arms = event_arm_of(m, f, bi)
+        if arms is None:
+            return None
+        for e in arms:
+            table.setdefault(e, set()).update(keys)
+            covered.add(e)
+    return table
+
+
+def _promoted_strs(f, rv, depth=0):
+    if depth > 6:
+        return None
+    if rv[0] == "use":
+        op = rv[1]
+    elif rv[0] == "cast":
+        op = rv[2]
+    elif rv[0] == "ref":
+        op = ("c", rv[1])
+    else:
+        return None
+    if op[0] == "k":
+        idx = op[1].get("promoted")
+        if idx is None:
+            return None
+        pb = f.promoted[idx]
+        out = set()
+        for b in pb.blocks:
+            for s in b["s"]:
+                if s[0] == "A" and s[2][0] == "use" and s[2][1][0] == "k" and "str" in s[2][1][1]:
+                    out.add(s[2][1][1]["str"])
+        return out
+    loc = op[1][0]
+    ds = [d for d in f.defs().get(loc, []) if d[2] == "assign"]
+    if len(ds) != 1:
+        return None
+    return _promoted_strs(f, ds[0][3], depth + 1)
